@@ -74,6 +74,9 @@ def r_dup_sanitize(ck: Checker) -> None:
     f = ck.repo.func(NODE, "ASTNode.duplicate")
     fn = f.node
     loops = [s for s in fn.body if isinstance(s, ast.For)]
+    if not loops:
+        from ..astutil import comp_as_loop
+        loops = [lp_ for lp_ in (comp_as_loop(s) for s in fn.body) if lp_ is not None]
     keyed = _node_keyed_mapping(fn)
     if keyed:
         ck.violation("R-DUP-SANITIZE", f, fn, "duplicate pairs every original node object with its own copy (by position or object identity)",
